@@ -50,6 +50,12 @@ def cook(text):
                 out.append(chr(int(m.group(1), 16)))
                 i += 4
                 continue
+        if d in "01234567":
+            # legacy octal escape (sloppy mode string literals): \0 .. \377, longest match
+            m = re.match(r"[0-3][0-7]{0,2}|[4-7][0-7]?", text[i + 1:i + 4])
+            out.append(chr(int(m.group(0), 8)))
+            i += 1 + m.end()
+            continue
         if d in simple:
             out.append(simple[d])
         elif d == "\r" and text[i + 2:i + 3] == "\n":
